@@ -28,6 +28,7 @@ import (
 	"go.amzn.com/lambda/extensions"
 	"go.amzn.com/lambda/fatalerror"
 	"go.amzn.com/lambda/interop"
+	"go.amzn.com/lambda/metering"
 	"go.amzn.com/lambda/rapi/handler"
 	"go.amzn.com/lambda/rapi/middleware"
 	"go.amzn.com/lambda/rapi/model"
@@ -274,6 +275,10 @@ func (s *verifSupervisor) Kill(ctx context.Context, req *supvmodel.KillRequest) 
 	if p == nil {
 		return &supvmodel.SupervisorError{Kind: supvmodel.NoSuchEntity}
 	}
+	if !p.exitPosted && !req.Deadline.After(time.Now()) {
+		// like the local supervisor: a kill request whose deadline already passed is refused
+		return errors.New("invalid timeout while killing " + req.Name)
+	}
 	p.killed = true
 	if !p.exitPosted {
 		s.exit(p, 0, 9)
@@ -336,12 +341,20 @@ type verifWorld struct {
 	lastBody map[string]string
 	rtBodies, rtArns, rtResponses, rtStatuses []string
 	rtPlan    [][]int
+	times     map[int]int64
 	rtStarted int
 	bodies   map[string][]string
 }
 
+// mono: the platform's monotonic clock as metering.Monotime() reports it
+func (w *verifWorld) mono() int64 { return metering.Monotime() }
+
 func (w *verifWorld) note(who, what, arg string) int {
 	w.seq++
+	if w.times == nil {
+		w.times = map[int]int64{}
+	}
+	w.times[w.seq] = time.Now().UnixNano()
 	w.log = append(w.log, verifEv{w.seq, who, what, arg})
 	return w.seq
 }
@@ -781,5 +794,90 @@ func (w *verifWorld) plannedRuntime() func(p *verifProc) {
 				st(w.runtimeResponse(who, id, resp))
 			}
 		}
+	}
+}
+
+
+// ---------------------------------------------------------------------------
+// C15: grammar and truthfulness of the platform lifecycle events recorded so far
+
+func (w *verifWorld) CheckEventGrammar() {
+	inInit := false
+	initPhase := ""
+	nRtDone := 0
+	initStartSeq := 0
+	curInvoke := ""
+	invokeStartSeq := 0
+	nInvRtDone := 0
+	startsPerID := map[string]int{}
+	for _, e := range w.log {
+		if e.who != "platform" {
+			continue
+		}
+		switch e.what {
+		case "initStart":
+			verifAssert(!inInit, "init-start is not emitted inside an unfinished initialisation")
+			inInit, initPhase, nRtDone, initStartSeq = true, e.arg, 0, e.seq
+		case "extensionInit":
+			verifAssert(inInit, "extension status lines belong to an initialisation")
+		case "initRuntimeDone":
+			verifAssert(inInit, "init-runtime-done belongs to an initialisation")
+			nRtDone++
+			verifAssert(nRtDone <= 1, "at most one init-runtime-done per initialisation")
+			parts := strings.SplitN(e.arg, "/", 3)
+			verifAssert(parts[0] == initPhase, "init-runtime-done carries the phase of its init-start")
+			// truthfulness: success only if the runtime of this initialisation reached its next poll
+			reached := false
+			for _, x := range w.log {
+				if x.seq > initStartSeq && x.seq < e.seq && strings.HasPrefix(x.who, "runtime-") && x.what == "next-issued" {
+					reached = true
+				}
+			}
+			if parts[1] == "success" {
+				verifAssert(reached, "init-runtime-done reports success only if the runtime reached its next poll")
+			} else {
+				verifAssert(parts[2] != "", "an error status carries the type of the first fault")
+			}
+			if !reached {
+				verifAssert(parts[1] != "success", "init-runtime-done does not report success when the runtime never reached its next poll")
+			}
+		case "initReport":
+			verifAssert(inInit, "init-report closes an initialisation")
+			verifAssert(e.arg == initPhase, "init-report carries the phase of its init-start")
+			inInit = false
+		case "invoke-begin":
+			// (emitted by the harness when HandleInvoke is entered directly)
+		case "invokeStart":
+			startsPerID[e.arg]++
+			verifAssert(startsPerID[e.arg] == 1, "exactly one invoke-start per dispatched invocation")
+			curInvoke, invokeStartSeq, nInvRtDone = e.arg, e.seq, 0
+		case "invokeRuntimeDone":
+			verifAssert(curInvoke != "", "invoke-runtime-done follows an invoke-start")
+			nInvRtDone++
+			verifAssert(nInvRtDone <= 1, "at most one invoke-runtime-done per invocation")
+			parts := strings.SplitN(e.arg, "/", 2)
+			if parts[0] == "success" {
+				responded, polled := 0, false
+				for _, x := range w.log {
+					if x.seq > invokeStartSeq && x.seq < e.seq && strings.HasPrefix(x.who, "runtime-") {
+						if (x.what == "response-returned" || x.what == "error-returned") && x.arg == "202" {
+							responded = x.seq
+						}
+						if x.what == "next-issued" && responded > 0 && x.seq > responded {
+							polled = true
+						}
+					}
+				}
+				verifAssert(responded > 0 && polled, "invoke-runtime-done reports success only if the runtime posted its response and returned to next")
+			}
+		}
+	}
+	verifAssert(!inInit, "every initialisation ends with exactly one init-report")
+}
+
+// DispatchedWithoutStart: every invocation handed to HandleInvoke got exactly one invoke-start.
+func (w *verifWorld) CheckInvokeStarts(ids []string) {
+	for _, id := range ids {
+		verifAssert(w.count("platform", "invokeStart", id) == 1, "each dispatched invocation emits exactly one invoke-start")
 	}
 }
